@@ -13,7 +13,8 @@
  * and the library function it is inside in shared memory.  When the worker dies (sanitizer
  * abort, SIGSEGV on a guard page, alarm() watchdog) the parent prints
  *   "X <idx> fn=<function> st=<sig|exit code>"  after the worker's report and forks a new
- * worker for the remaining cases ("T <idx>": crash budget used up, cases from idx on were not run).
+ * worker for the remaining cases.  "T <idx>": case not run, the crash budget of its op (argv[2] worker
+ * deaths per op name) is used up.
  * Answers are "R <idx> <op> k=v ...".  Ops with several library calls take a phase argument so that one
  * faulting call does not hide the calls after it.
  */
@@ -50,7 +51,8 @@
 #endif
 
 /* ------------------------------------------------------------------ shared progress record */
-typedef struct { volatile long idx; char fn[96]; } shm_t;
+#define NOPS 24
+typedef struct { volatile long idx; char fn[96]; char op[32]; char ops[NOPS][32]; long crashes[NOPS]; } shm_t;
 static shm_t *shm;
 #define FN(name) do { strncpy(shm->fn, (name), sizeof(shm->fn) - 1); } while (0)
 
@@ -491,14 +493,18 @@ static void op_ts(const uint8_t *in, size_t n, long ph) {
 }
 
 /* ------------------------------------------------------------------ main loop */
-static char **lines; static size_t nlines;
+static char **lines; static size_t nlines; static long budget;
 static void run_case(size_t idx) {
 	char op[32], *hex = malloc(strlen(lines[idx]) + 1); long a1 = 0, a2 = 0; size_t n; uint8_t *in;
 	int k = sscanf(lines[idx], "%31s %s %ld %ld", op, hex, &a1, &a2);
 	if (k < 2) { printf("R %zu bad-line\n", idx); free(hex); return; }
+	if (budget > 0) {
+		for (int i = 0; i < NOPS && shm->ops[i][0]; i++)
+			if (!strcmp(shm->ops[i], op) && shm->crashes[i] >= budget) { printf("T %zu\n", idx); free(hex); return; }
+	}
 	in = parse_hex(hex, &n);
 	span_msg[0] = 0;
-	shm->idx = (long)idx; FN("driver");
+	shm->idx = (long)idx; FN("driver"); strncpy(shm->op, op, sizeof(shm->op) - 1);
 	printf("R %zu %s", idx, op);
 	alarm(5);
 	if (sigsetjmp(fault_jb, 1) != 0) {
@@ -533,7 +539,7 @@ static void run_case(size_t idx) {
 }
 
 int main(int argc, char **argv) {
-	char *buf = NULL; size_t cap = 0; ssize_t r; size_t start = 0; long budget = 0, crashes = 0;
+	char *buf = NULL; size_t cap = 0; ssize_t r; size_t start = 0;
 	if (argc > 1) mode = !strcmp(argv[1], "ghi") ? M_GHI : !strcmp(argv[1], "glo") ? M_GLO : M_HEAP;
 	/* all cases in ONE block (keeps the parent small: every fork copies its page tables) */
 	{
@@ -580,7 +586,10 @@ int main(int argc, char **argv) {
 			printf("\nX %ld fn=%s st=%s%d\n", bad, shm->fn[0] ? shm->fn : "driver",
 			    WIFSIGNALED(st) ? "sig" : "exit", WIFSIGNALED(st) ? WTERMSIG(st) : WEXITSTATUS(st));
 			start = (size_t)bad + 1;
-			if (budget > 0 && ++crashes >= budget && start < nlines) { printf("T %zu\n", start); break; }
+			for (int i = 0; i < NOPS; i++) {             /* count the death against the op of that case */
+				if (!shm->ops[i][0]) strncpy(shm->ops[i], shm->op, sizeof(shm->ops[i]) - 1);
+				if (!strcmp(shm->ops[i], shm->op)) { shm->crashes[i]++; break; }
+			}
 		}
 	}
 	fflush(stdout);
